@@ -35,6 +35,7 @@ func runC01(r *mon.Run) {
 	m := bigP
 	api.runCommon(r, r.N(30000, 1500000), r.N(9000, 300000), r.N(9000, 450000), r.N(9000, 450000))
 	api.runFiat(r, r.N(18000, 900000))
+	api.runHistories(r, r.N(150, 8000))
 	if !hk.HaveFiat {
 		r.Note("hook group verif_fiat unavailable: raw fiat entry points, pow3mod4, setShortBytes, reduceSaturated not driven")
 	}
